@@ -498,7 +498,7 @@ fn case_bilinear<T: Elem>(case: u64, args: &Args, ev: &mut Ev, log: &mut EventLo
 
 fn main() {
     let args = Args::parse("C16");
-    let n = args.budget(800, 30000);
+    let n = args.budget(800, 150000);
     let ev = run_sharded(&args, n, |case, ev, log| {
         let f32_ = case % 7 == 6;
         match (case % 4, f32_) {
